@@ -338,7 +338,7 @@ pub struct LayerA {
     pub reference: Outcome,
 }
 
-pub fn check_c20a(c: &Concrete, preamble: &str, std_free: bool) -> LayerA {
+pub fn check_c20a(c: &Concrete, preamble: &str, std_free: bool, base_main: Option<&str>) -> LayerA {
     let mut vs = Vec::new();
     let out = execute(c);
     // reference bytes B(s): same scenario, fault-free accepting sink
@@ -356,6 +356,46 @@ pub fn check_c20a(c: &Concrete, preamble: &str, std_free: bool) -> LayerA {
                 c.sink.kind(),
                 format!("compilation failed but {} write call(s) reached the sink ({} bytes)", out.writes.len(), out.sink_bytes.len()),
             ));
+        }
+    }
+    // every error is reported, also those of files behind a damaged importer: when the damage in the main file starts
+    // after its last import line, the imports are read exactly as before the damage (parsing is sequential), so every
+    // file the undamaged main file leads to is still loaded, and its errors can be reported in the same run
+    if let (Some(base), Some(now)) = (base_main, c.files.get(&c.main)) {
+        // lines are compared with their terminators; a file with conflict markers is documented not to be parsed at all
+        let same: usize = base.split_inclusive('\n').zip(now.split_inclusive('\n')).take_while(|(a, b)| a == b).count();
+        let is_import = |l: &str| l.starts_with("use ") || l.starts_with("from ");
+        let base_lines: Vec<&str> = base.split_inclusive('\n').collect();
+        // an import list in parentheses may span lines: the statement ends on the line with the closing parenthesis
+        let last_import = base_lines.iter().enumerate().filter(|(_, l)| is_import(l)).map(|(i, _)| i).last().and_then(|i| {
+            if base_lines[i].contains('(') && !base_lines[i].contains(')') {
+                (i..base_lines.len()).find(|k| base_lines[*k].contains(')'))
+            } else {
+                Some(i)
+            }
+        });
+        let conflict_markers = now.lines().any(|l| l.starts_with("<<<<<<<"));
+        if let Some(li) = last_import {
+            if li < same && !conflict_markers && !c.io_errors.contains(&c.main) && c.files.len() >= 2 {
+                let mut undamaged = cref.clone();
+                undamaged.files.insert(c.main.clone(), base.to_string());
+                let uo = execute(&undamaged);
+                let asked: std::collections::BTreeSet<&String> = reference.reads.iter().map(|(p, _)| p).collect();
+                if let Some((missing, _)) = uo.reads.iter().find(|(p, _)| !asked.contains(p)) {
+                    vs.push(v(
+                        "C20",
+                        "errors-lost",
+                        "imports-of-a-damaged-file-not-followed",
+                        format!(
+                            "{} is damaged from line {} on, after its last import (line {}); undamaged it leads to {}, damaged that file is never read, so its errors cannot be reported",
+                            c.main,
+                            same + 1,
+                            li + 1,
+                            missing
+                        ),
+                    ));
+                }
+            }
         }
     }
     // every error is reported: a parse-level error that a loaded file shows when it is compiled on its own
